@@ -291,7 +291,7 @@ class Recorder:
         wcons = self._cons(cons) if cons is not None else None
         # the USER's hard box, copied BEFORE the constructor sees the arrays: the oracle of C01 must not be read back from the implementation
         user_lb, user_ub = _l(np.array(args["lower_bounds"], dtype=float)), _l(np.array(args["upper_bounds"], dtype=float))
-        args = {k: (None if v is None else np.array(v, dtype=float)) for k, v in args.items()}
+        args = {k: (None if v is None else np.array(v, dtype=(v.dtype if (k == "x0" and self.spec.get("x0_int")) else float))) for k, v in args.items()}
         try:
             b = BADS(wfun, non_box_cons=wcons, options=dict(options), **args)
         except Exception as ex:
